@@ -5,7 +5,7 @@ from ..core import f2b, b2f
 from .. import samples as S, sample_checks as SC, kin, exact as X, oracle
 
 MODULE = "Momtrop.Props.C07Attain"
-THEOREMS = ["Momtrop.C07.rescaling_common", "Momtrop.C07.scaling_def", "Momtrop.C07.removal_step", "Momtrop.C07.last_step", "Momtrop.C07.rescaling_normalises", "Momtrop.C07.permLoop_trace", "Momtrop.C07.chain_nodup", "Momtrop.C07.replay_get", "Momtrop.C07.sector_formula", "Momtrop.C07.sector_monotone", "Momtrop.C07.permLoop_trop", "Momtrop.loopNumber_drop_iff", "Momtrop.bridge_mono", "Momtrop.loopNumber_perm", "Momtrop.C07.loopsOf_nullity", "Momtrop.C07.cotree_iff_maximal_forest", "Momtrop.C07.greedySet_cotree", "Momtrop.C07.greedy_max", "Momtrop.C07.uTrop_largest_monomial", "Momtrop.C07.permTrace_complete", "Momtrop.C07.tropReplay_fst", "Momtrop.C07.uTrop_is_largest_monomial", "Momtrop.C07.preEntry_loops", "Momtrop.C07.greedyProd_smul", "Momtrop.C07.majorization", "Momtrop.C07.polytope_max", "Momtrop.C07.mass_term_le", "Momtrop.C07.tropReplay_snd", "Momtrop.C07.run_facts", "Momtrop.C07.uv_trop", "Momtrop.C07.F_polytope_max", "Momtrop.C07.mass_terms_le", "Momtrop.C07.mmOf_spanLike", "Momtrop.C07.mmOf_contains_massive", "Momtrop.C07.premises_of_preEntry", "Momtrop.C07.conn_transfer", "Momtrop.C07.removed_edge_joined", "Momtrop.C07.momentum_term_le", "Momtrop.C07.uv_decomposition", "Momtrop.C07.mmOf_conn", "Momtrop.C07.momentum_terms_le", "Momtrop.C07.add_edge_split", "Momtrop.C07.joined_closes_cycle", "Momtrop.C07.forest_conn", "Momtrop.C07.split_persist", "Momtrop.C07.uv_attained_momentum", "Momtrop.C07.mmOf_of_joined", "Momtrop.C07.uv_is_monomial"]
+THEOREMS = ["Momtrop.C07.rescaling_common", "Momtrop.C07.scaling_def", "Momtrop.C07.removal_step", "Momtrop.C07.last_step", "Momtrop.C07.rescaling_normalises", "Momtrop.C07.permLoop_trace", "Momtrop.C07.chain_nodup", "Momtrop.C07.replay_get", "Momtrop.C07.sector_formula", "Momtrop.C07.sector_monotone", "Momtrop.C07.permLoop_trop", "Momtrop.loopNumber_drop_iff", "Momtrop.bridge_mono", "Momtrop.loopNumber_perm", "Momtrop.C07.loopsOf_nullity", "Momtrop.C07.cotree_iff_maximal_forest", "Momtrop.C07.greedySet_cotree", "Momtrop.C07.greedy_max", "Momtrop.C07.uTrop_largest_monomial", "Momtrop.C07.permTrace_complete", "Momtrop.C07.tropReplay_fst", "Momtrop.C07.uTrop_is_largest_monomial", "Momtrop.C07.preEntry_loops", "Momtrop.C07.greedyProd_smul", "Momtrop.C07.majorization", "Momtrop.C07.polytope_max", "Momtrop.C07.mass_term_le", "Momtrop.C07.tropReplay_snd", "Momtrop.C07.run_facts", "Momtrop.C07.uv_trop", "Momtrop.C07.F_polytope_max", "Momtrop.C07.mass_terms_le", "Momtrop.C07.mmOf_spanLike", "Momtrop.C07.mmOf_contains_massive", "Momtrop.C07.premises_of_preEntry", "Momtrop.C07.conn_transfer", "Momtrop.C07.removed_edge_joined", "Momtrop.C07.momentum_term_le", "Momtrop.C07.uv_decomposition", "Momtrop.C07.mmOf_conn", "Momtrop.C07.momentum_terms_le", "Momtrop.C07.add_edge_split", "Momtrop.C07.joined_closes_cycle", "Momtrop.C07.forest_conn", "Momtrop.C07.split_persist", "Momtrop.C07.uv_attained_momentum", "Momtrop.C07.mmOf_of_joined", "Momtrop.C07.uv_is_monomial", "Momtrop.C07.tropical_values_bound_all_monomials"]
 RULE = ("accepted connected graphs with 1..3 (quick) / 1..4 (thorough) loops, mixed massive/massless edges, D=1..6 odd and even, "
         "uniform/corner points; pre-rescaling parameters vs the sector formula (mpmath), logged U_tr/V_tr vs the brute-force maximal "
         "monomials of U and F/U (exact), normalisation at the rescaled parameters. Non-trivial: L>=1, >=3 edges, removal order not the identity"
